@@ -9,7 +9,7 @@ GXT = "stateless deviation-bounded exhaustive exploration of the real implementa
 PNOTE = "simkafka's reading of the Kafka protocol; interleavings only at gates/answers/application operations/ticks (not at every memory access); bounds 2-4 messages, 1-2 partitions, 1-2 brokers, <=B deviations from each scenario's default policy."
 CHECKS = {
  "C01": (MC, GXT,
-         "Every execution of the producer scenarios (configurations: idempotent on/off, Retry.Max 0..2, flush settings, 1-2 partitions, 1-2 brokers, message formats v0/v1/v2, back-off, metadata faults, early close) with at most B deviations (fault answers, gate postponements, early input, early close) is run on the real implementation and judged by the exactly-one-outcome ledger; B iterated 0..3/4 quick, 0..4/5 thorough.",
+         "Every execution of the producer scenarios (incl. leader elections as an environment state, input landing in an open retry window, the hand-over of a partition to a broker worker as a decision point; configurations: idempotent on/off, Retry.Max 0..2, flush settings, 1-2 partitions, 1-2 brokers, message formats v0/v1/v2, back-off, metadata faults, early close) with at most B deviations (fault answers, gate postponements, early input, early close) is run on the real implementation and judged by the exactly-one-outcome ledger; B iterated 0..3/4 quick, 0..4/5 thorough.",
          PNOTE, "§6 C01"),
  "C02": (MC, GXT,
          "Same exhaustive exploration as C01, judged by the per-partition order oracle: offsets of successes increase with submission order, first copies in the simulated log are in submission order.",
@@ -39,10 +39,10 @@ CHECKS = {
          "Every well-formed transactional log of <=5 (quick) / <=6 (thorough) batches over {data A, data B, non-transactional data, commit/abort markers} x batches per fetch x every start offset x isolation level x every order of the aborted index x two protocol generations; plus fault/schedule layer with <=B deviations; oracle: read-committed delivers exactly committed+non-transactional records below the last stable offset, read-uncommitted all data records, control records never.",
          "aborted index and last stable offset computed by simkafka as a faithful broker would.", "§6 C11"),
  "C06": (MC, "explicit-state breadth-first search over the real offset manager (successor = history replayed on a fresh instance + one event, visited set on a canonical state key validated by an unpruned differential search) under the controlled scheduler",
-         "All event sequences (MarkOffset/ResetOffset with offsets cur-1..cur+2, auto-commit tick or manual Commit, the om.flush.sent gate, every coordinator answer incl. per-partition error classes, missing block, connection loss with/without storing, Close, second Close) to depth 7 (quick) / 9 (thorough) for 1 partition (auto and manual commit) and depth 5/7 for 2 partitions with retention; invariants in every state: committed pairs are marked pairs, no unexplained backwards store, Mark never lowers / Reset never raises, fresh NextOffset, position!=store => dirty, after a clean Close the store equals the latest mark.",
+         "All event sequences (MarkOffset/ResetOffset with offsets cur-1..cur+2, auto-commit tick or manual Commit, the om.flush.sent gate, every coordinator answer incl. per-partition error classes, missing block (stored or not stored), one request spanning two topics, equal metadata on every mark, a stored commit at offset 0, connection loss with/without storing, Close, second Close) to depth 7 (quick) / 9 (thorough) for 1 partition (auto and manual commit) and depth 5/7 for 2 partitions with retention; invariants in every state: committed pairs are marked pairs, no unexplained backwards store, Mark never lowers / Reset never raises, fresh NextOffset, position!=store => dirty, after a clean Close the store equals the latest mark.",
          "state key = bridge dump of the manager + coordinator store + request in flight + parked committer's snapshot + connection states + call history; its soundness is checked by the unpruned search two levels shallower (identical key sets required) and by run-to-run stability of the state count.", "§6 C06"),
  "C07": (MC, GXT,
-         "1-2 real ConsumerGroup members (own clients) against a simulated group coordinator (join/sync/heartbeat/leave state machine, commit admission by member/generation) and partition leaders; handler behaviours {returns at once, reads k then returns, reads until closed, Setup error}; end triggers {context cancel, second member joins, fencing answers, claim ends, Close}; strategies range/round-robin/sticky; committed offsets none/valid/out of range; all executions with <=B deviations (B=2 quick for one member, 1-2 for two); oracle: per-session life-cycle automaton (Setup once, <=1 ConsumeClaim per claimed partition, Cleanup after all claims, final commit before Consume returns), claim start offsets, identities carried by Sync/Heartbeat/OffsetCommit, fresh identity after fencing, no record skipped across sessions.",
+         "1-2 real ConsumerGroup members (own clients) against a simulated group coordinator (join/sync/heartbeat/leave state machine, commit admission by member/generation) and partition leaders; handler behaviours {returns at once, reads k then returns, reads until closed, Setup error}; coordinator answers incl. NOT_COORDINATOR on sync; a stored commit at offset 0; end triggers {context cancel, second member joins, fencing answers, claim ends, Close}; strategies range/round-robin/sticky; committed offsets none/valid/out of range; all executions with <=B deviations (B=2 quick for one member, 1-2 for two); oracle: per-session life-cycle automaton (Setup once, <=1 ConsumeClaim per claimed partition, Cleanup after all claims, final commit before Consume returns), claim start offsets, identities carried by Sync/Heartbeat/OffsetCommit, fresh identity after fencing, no record skipped across sessions.",
          "heartbeats, fetch rounds, claim start and subscriptions are gated so that the session's goroutines never race for one connection within a step; time passes only while every ticker-driven loop is idle; sticky assignment only with one member (its plan depends on Go map order with two).", "§6 C07"),
  "C08": (MC, "explicit-state breadth-first search over group states through the real BalanceStrategy.Plan / AssignmentData / user-data decode path (visited set on a canonical key, differential unpruned search), cases in watched child processes",
          "Every group of <=3 members x <=3 topics x <=3 (thorough 4) partitions x every subscription pattern for range and round-robin; sticky: chains of rebalances (join fresh / with stale or conflicting user data, leave, subscription change, partitions added/removed, topic deleted) to depth 2-3 (quick) / 3-5 (thorough); oracle: every partition with a subscriber assigned exactly once, only to a subscriber, no unknown member / nonexistent partition, Plan returns.",
@@ -51,23 +51,23 @@ CHECKS = {
          "Same state graph as C08; oracle: range contiguous ranges with sizes differing <=1 per topic, round-robin totals of identically subscribed members differ <=1, sticky balanced in Kafka's sense (written from subscriptions), fixed point on unchanged input, keep-on-leave and no-move-between-old-members-on-join with identical subscriptions, no pairwise swap within a topic.",
          "stickiness clauses are judged only for plans fed back with increasing generations and only on plans valid per C08.", "§6 C08/C13"),
  "C12": (MC, GXT,
-         "Close/AsyncClose enabled as an action at every decision point of the producer, partition-consumer, offset-manager and consumer-group scenarios (closeany), combined with <=B other deviations (faults, postponements); oracle: Close/Consume return, public channels are closed after their last event, no panic (recovered PanicHandler or process death), second Close harmless.",
+         "Close/AsyncClose enabled as an action at every decision point of the producer, partition-consumer, offset-manager and consumer-group scenarios (closeany), combined with <=B other deviations (faults, postponements); oracle: Close/Consume return, public channels are closed after their last event, no panic (recovered PanicHandler or process death), second Close harmless. Scenarios include a sibling partition on a worker that is being left, two slow readers on one worker (hand-over of new subscriptions as a decision point), an auto-commit close with a clean and a dirty partition, a slow Errors() reader, an idle group member.",
          PNOTE + " Goroutine leaks after Close are reported as INFO only.", "§6 C12"),
  "C14": (MC, GXT,
-         "One real Broker on an in-memory connection, 2-4 callers x 1-2 calls, MaxOpenRequests 1-3, server actions on the oldest unanswered request {correct, swapped / unknown correlation id, truncated header/body, oversized / undersized / negative length, stall, abrupt close}, read-timeout ticks, Close racing; all executions with <=4 (quick) / <=5-7 (thorough) deviations; oracle: own response or error, mismatching id never delivered, fail-stop after a fault, requests on the wire <= MaxOpenRequests.",
+         "One real Broker on an in-memory connection, 2-4 callers x 1-2 calls, MaxOpenRequests 1-3, server actions on the oldest unanswered request {correct, swapped / unknown correlation id, a stale (lower) correlation id followed by the proper answer, truncated header/body, oversized / undersized / negative length, stall, abrupt close}, read-timeout ticks, Close racing; all executions with <=4 (quick) / <=5-7 (thorough) deviations; oracle: own response or error, mismatching id never delivered, fail-stop after a fault, requests on the wire <= MaxOpenRequests.",
          "one call enters per step (callers never race for the broker lock within a step); one server fault per execution.", "§6 C14"),
  "C15": (MC, "explicit-state BFS over metadata-response histories through the real client (canonical key = bridge dump of the client's caches, validated by an unpruned differential search) + controlled-scheduler exploration of reader/refresher interleavings down to lock acquisitions + exhaustive enumeration of reachability patterns",
-         "History: 10-16 operations x 21-26 cluster snapshots (topics appearing/vanishing/erroring per class, partitions added/removed, leaders moving/unavailable/unknown, brokers added/removed/readdressed, full vs per-topic refresh): the state graph closes at depth 3; after every event all read APIs are compared with a reference fold. Atomicity: readers vs refresher at quiescent points and at every acquisition of client.lock (preemption bound 2-3): every observation equals the state before or after the refresh. Reachability: 1-3 seeds x 0-2 known brokers x every per-address behaviour x every seed order x every any() pick x Retry.Max 0/1: refresh/NewClient succeed iff a candidate answers.",
+         "History: 10-16 operations x 21-26 cluster snapshots (topics appearing/vanishing/erroring per class, partitions added/removed, leaders moving/unavailable/unknown, brokers added/removed/readdressed, full vs per-topic refresh): the state graph closes at depth 3; after every event all read APIs are compared with a reference fold. Atomicity: readers vs refresher at quiescent points and at every acquisition of client.lock (preemption bound 2-3): every observation equals the state before or after the refresh. Reachability: 1-3 seeds x 0-2 known brokers x every per-address behaviour x every seed order x every any() pick x Retry.Max 0/1: refresh/NewClient succeed iff a candidate answers; plus a family with two concurrent RefreshMetadata calls followed by a single one (the two callers' interleaving is the Go scheduler's, not enumerated).",
          "open points of the property (WritablePartitions with an unknown leader id, per-topic responses and the broker list, ...) are accepted either way and counted in the evidence.", "§6 C15"),
  "C16": (MC, GXT + " + bounded-exhaustive families of size vectors x flush settings through the real producer",
          "Message-size vectors at/around each limit (MaxMessageBytes, per-partition batch limit, MaxRequestSize lowered inside the scenario) x Flush.{Messages,Bytes,Frequency,MaxMessages} x message formats v0/v1/v2 x 1-2 partitions x input-first / latency policies; GX scenarios with <=3-4 (quick) / <=4-6 (thorough) deviations; oracle at the simulated broker and on a byte tap of the connection: records per request <= MaxMessages, batch key+value bytes <= MaxMessageBytes unless single, frame <= MaxRequestSize, oversize message rejected and never sent, one outcome per message, flush liveness (no further input needed once a trigger fires).",
          "rejection is judged with a 36-byte margin around the version-dependent overhead constant; one broker, no faults.", "§6 C16"),
  "C09": (EX, "bounded-exhaustive enumeration of (protocol body, version, <=k field deviations, codec) through the real two-pass encoder and decoder, with an independent wire reader; registry found by a go/parser scan of /repo at check time and cross-checked against a compiled table",
-         "76 request/response bodies x every version 0..max plus RecordBatch, MessageSet, Records, member metadata/assignment, sticky user data, request/response headers; a reflective generator builds a base value and every value differing in <=1 (quick) / <=2 (thorough) leaf slots; oracles: prep length == bytes written; decode(encode(v)) re-encodes to the same length/bytes and decodes to the same value; a deviation that changes the bytes changes the decoded value; length prefixes, CRC ranges (IEEE / Castagnoli), varints and compact encodings checked by an independent reader.",
-         "values come from small per-kind alphabets; records nested in Produce/Fetch are covered by the round-trip oracles only.", "§6 C09"),
+         "76 request/response bodies x every version 0..max plus RecordBatch, MessageSet, Records, member metadata/assignment, sticky user data, request/response headers; a reflective generator builds a base value and every value differing in <=1 (quick) / <=2 (thorough) leaf slots; oracles: prep length == bytes written; decode(encode(v)) re-encodes to the same length/bytes and decodes to the same value; a deviation that changes the bytes changes the decoded value; length prefixes, CRC ranges (IEEE / Castagnoli), varints and compact encodings checked by an independent reader. Plus size sweeps: record batches whose value / key / header value / header key / second record / record count takes EVERY size in [0,300], [8100,8300], [16300,16500] (where the widths of the varint length prefixes change); lists of scalars also with 126, 127, 128 elements.",
+         "values come from small per-kind alphabets (sizes around prefix-width changes are swept for record batches only); records nested in Produce/Fetch are covered by the round-trip oracles only.", "§6 C09"),
  "C10": (EX, "bounded-exhaustive single mutation of every valid encoding (truncation at every length, every bit flip, every 1/2/4-byte and varint overwrite with boundary values) plus all short byte strings, fed to every decode entry point in memory-capped child processes",
-         "Every response body x version, response header, RecordBatch, MessageSet, Records, fetch blocks with compressed payloads, member metadata/assignment, sticky user data: 1.3 M (quick) / 149 M (thorough) mutated inputs; oracle: value or error, no panic, no hang, allocation proportional to the input (plus what decompression legitimately yields), and a checksummed region that was altered never yields different records.",
-         "single mutations only; the allocation bound is 64 KiB + 1000 x input length (+ measured codec working set).", "§6 C10"),
+         "Every response body x version, response header, RecordBatch, MessageSet, Records, fetch blocks with compressed payloads, member metadata/assignment, sticky user data: 2.3 M (quick) / 280 M (thorough) mutated inputs; every mutation inside a checksummed region is also decoded with the checksum recomputed (a corrupted payload with a matching checksum: panics and clearly disproportionate allocation only); the response-header family replays the body sizing of Broker.responseReceiver; oracle: value or error, no panic, no hang, allocation proportional to the input (plus what decompression legitimately yields), and a checksummed region that was altered never yields different records.",
+         "single mutations (plus checksum repair) only; the allocation bound is 64 KiB + 1000 x input length (+ measured codec working set).", "§6 C10"),
 }
 NOT_YET = {}
 props = [json.loads(l) for l in open(os.path.join(ROOT, "properties.jsonl"))]
